@@ -1,0 +1,181 @@
+//! Verification hooks. Compiled only with `--cfg grass_verif`; inert until a
+//! simulator installs a callback or sets a budget on the current thread.
+//!
+//! * `point(site)`: a scheduling point. Calls the process-global callback if
+//!   one is installed. Used by the interner and by the two process-global
+//!   atomic counters (through the thin wrappers below).
+//! * lexer fuel: every `Lexer` operation ticks a per-instance counter
+//!   (`lexer_tick`); past `lexer_budget(len)` the hook panics with
+//!   [`FuelExhausted`]. Enabled per thread with `set_lexer_fuel(true)`.
+//! * evaluation fuel: `eval_tick()` is called per visited statement and per
+//!   loop iteration; past the per-thread limit it panics with
+//!   [`FuelExhausted`]. Enabled per thread with `set_eval_fuel(limit)`.
+
+use std::cell::Cell;
+use std::sync::atomic::{AtomicU32, AtomicUsize, Ordering};
+
+/// Panic payload used when a budget runs out.
+#[derive(Debug, Clone, Copy)]
+pub struct FuelExhausted(pub &'static str);
+
+static POINT_CB: AtomicUsize = AtomicUsize::new(0);
+
+/// Install (or with `None` remove) the process-global scheduling-point callback.
+pub fn set_point_callback(cb: Option<fn(&'static str)>) {
+    POINT_CB.store(cb.map_or(0, |f| f as usize), Ordering::SeqCst);
+}
+
+#[inline]
+pub fn point(site: &'static str) {
+    let p = POINT_CB.load(Ordering::Relaxed);
+    if p != 0 {
+        // SAFETY: only ever stored from a `fn(&'static str)` above.
+        let f: fn(&'static str) = unsafe { std::mem::transmute::<usize, fn(&'static str)>(p) };
+        f(site);
+    }
+}
+
+/// Force every `Lazy` table so that first-use initialisation never happens
+/// inside a simulated schedule.
+pub fn force_lazies() {
+    once_cell::sync::Lazy::force(&crate::builtin::GLOBAL_FUNCTIONS);
+    once_cell::sync::Lazy::force(&crate::builtin::DISALLOWED_PLAIN_CSS_FUNCTION_NAMES);
+    once_cell::sync::Lazy::force(&crate::unit::UNIT_CONVERSION_TABLE);
+    let _ = crate::unit::known_compatibilities_by_unit(&crate::unit::Unit::Px);
+}
+
+thread_local! {
+    static LEXER_FUEL_ON: Cell<bool> = const { Cell::new(false) };
+    static EVAL_LIMIT: Cell<u64> = const { Cell::new(0) };
+    static EVAL_TICKS: Cell<u64> = const { Cell::new(0) };
+    static LEXER_OPS: Cell<u64> = const { Cell::new(0) };
+}
+
+pub fn set_lexer_fuel(on: bool) {
+    LEXER_FUEL_ON.with(|c| c.set(on));
+    LEXER_OPS.with(|c| c.set(0));
+}
+
+/// Total lexer operations on this thread since `set_lexer_fuel`.
+pub fn lexer_ops() -> u64 {
+    LEXER_OPS.with(Cell::get)
+}
+
+#[inline]
+pub fn lexer_budget(buf_len: usize) -> u64 {
+    4096 * (buf_len as u64 + 64)
+}
+
+#[inline]
+pub(crate) fn lexer_tick(counter: &Cell<u64>, buf_len: usize) {
+    if !LEXER_FUEL_ON.with(Cell::get) {
+        return;
+    }
+    LEXER_OPS.with(|c| c.set(c.get() + 1));
+    let n = counter.get() + 1;
+    counter.set(n);
+    if n > lexer_budget(buf_len) {
+        // disarm so that unwinding code that touches a lexer cannot re-panic
+        LEXER_FUEL_ON.with(|c| c.set(false));
+        std::panic::panic_any(FuelExhausted("lexer"));
+    }
+}
+
+/// `limit == 0` disables evaluation fuel on this thread. Resets the tick count.
+pub fn set_eval_fuel(limit: u64) {
+    EVAL_LIMIT.with(|c| c.set(limit));
+    EVAL_TICKS.with(|c| c.set(0));
+}
+
+pub fn eval_ticks() -> u64 {
+    EVAL_TICKS.with(Cell::get)
+}
+
+#[inline]
+pub(crate) fn eval_tick() {
+    let limit = EVAL_LIMIT.with(Cell::get);
+    if limit == 0 {
+        return;
+    }
+    let n = EVAL_TICKS.with(|c| {
+        let n = c.get() + 1;
+        c.set(n);
+        n
+    });
+    if n > limit {
+        EVAL_LIMIT.with(|c| c.set(0));
+        std::panic::panic_any(FuelExhausted("eval"));
+    }
+}
+
+/// `AtomicU32` whose every operation is a scheduling point.
+#[derive(Debug)]
+pub struct SchedAtomicU32(AtomicU32, &'static str);
+
+impl SchedAtomicU32 {
+    pub const fn new(v: u32, site: &'static str) -> Self {
+        Self(AtomicU32::new(v), site)
+    }
+    pub fn load(&self, o: Ordering) -> u32 {
+        point(self.1);
+        self.0.load(o)
+    }
+    pub fn store(&self, v: u32, o: Ordering) {
+        point(self.1);
+        self.0.store(v, o);
+    }
+    pub fn fetch_add(&self, v: u32, o: Ordering) -> u32 {
+        point(self.1);
+        self.0.fetch_add(v, o)
+    }
+    pub fn swap(&self, v: u32, o: Ordering) -> u32 {
+        point(self.1);
+        self.0.swap(v, o)
+    }
+    pub fn compare_exchange(
+        &self,
+        c: u32,
+        n: u32,
+        s: Ordering,
+        f: Ordering,
+    ) -> Result<u32, u32> {
+        point(self.1);
+        self.0.compare_exchange(c, n, s, f)
+    }
+}
+
+/// `AtomicUsize` whose every operation is a scheduling point.
+#[derive(Debug)]
+pub struct SchedAtomicUsize(AtomicUsize, &'static str);
+
+impl SchedAtomicUsize {
+    pub const fn new(v: usize, site: &'static str) -> Self {
+        Self(AtomicUsize::new(v), site)
+    }
+    pub fn load(&self, o: Ordering) -> usize {
+        point(self.1);
+        self.0.load(o)
+    }
+    pub fn store(&self, v: usize, o: Ordering) {
+        point(self.1);
+        self.0.store(v, o);
+    }
+    pub fn fetch_add(&self, v: usize, o: Ordering) -> usize {
+        point(self.1);
+        self.0.fetch_add(v, o)
+    }
+    pub fn swap(&self, v: usize, o: Ordering) -> usize {
+        point(self.1);
+        self.0.swap(v, o)
+    }
+    pub fn compare_exchange(
+        &self,
+        c: usize,
+        n: usize,
+        s: Ordering,
+        f: Ordering,
+    ) -> Result<usize, usize> {
+        point(self.1);
+        self.0.compare_exchange(c, n, s, f)
+    }
+}
